@@ -43,6 +43,7 @@ import (
 	"github.com/jdillenkofer/pithos/internal/storage/notification"
 	"github.com/jdillenkofer/pithos/internal/storage/s3client"
 	"github.com/jdillenkofer/pithos/verifharness/model"
+	"github.com/jdillenkofer/pithos/verifharness/seams"
 	"github.com/jdillenkofer/pithos/verifharness/sim"
 	"github.com/jdillenkofer/pithos/verifharness/world"
 )
@@ -663,6 +664,85 @@ func c37Keys(ms ...*model.Model) []string {
 	return out
 }
 
+// c37Faulty fails the n-th call of one operation kind on a storage the migrator talks to (an I/O
+// error of the source or destination in the middle of a migration run).
+type c37Faulty struct {
+	storage.Storage
+	op    string // operation kind to fail ("" = none)
+	at    int    // 0-based occurrence
+	seen  int
+	fired bool
+	err   error
+}
+
+func (f *c37Faulty) hit(op string) error {
+	if f.op != op {
+		return nil
+	}
+	f.seen++
+	if f.seen-1 == f.at {
+		f.fired = true
+		return f.err
+	}
+	return nil
+}
+
+func (f *c37Faulty) ListBuckets(ctx context.Context) ([]storage.Bucket, error) {
+	if err := f.hit("ListBuckets"); err != nil {
+		return nil, err
+	}
+	return f.Storage.ListBuckets(ctx)
+}
+
+func (f *c37Faulty) ListObjects(ctx context.Context, b storage.BucketName, opts storage.ListObjectsOptions) (*storage.ListBucketResult, error) {
+	if err := f.hit("ListObjects"); err != nil {
+		return nil, err
+	}
+	return f.Storage.ListObjects(ctx, b, opts)
+}
+
+func (f *c37Faulty) GetObject(ctx context.Context, b storage.BucketName, k storage.ObjectKey, ranges []storage.ByteRange, opts *storage.GetObjectOptions) (*storage.Object, []io.ReadCloser, error) {
+	if err := f.hit("GetObject"); err != nil {
+		return nil, nil, err
+	}
+	return f.Storage.GetObject(ctx, b, k, ranges, opts)
+}
+
+func (f *c37Faulty) GetObjectTagging(ctx context.Context, b storage.BucketName, k storage.ObjectKey, opts *storage.ObjectTaggingOptions) (map[string]string, error) {
+	if err := f.hit("GetObjectTagging"); err != nil {
+		return nil, err
+	}
+	return f.Storage.GetObjectTagging(ctx, b, k, opts)
+}
+
+func (f *c37Faulty) CreateBucket(ctx context.Context, b storage.BucketName) error {
+	if err := f.hit("CreateBucket"); err != nil {
+		return err
+	}
+	return f.Storage.CreateBucket(ctx, b)
+}
+
+func (f *c37Faulty) PutObject(ctx context.Context, b storage.BucketName, k storage.ObjectKey, ct *string, r io.Reader, ci *storage.ChecksumInput, opts *storage.PutObjectOptions) (*storage.PutObjectResult, error) {
+	if err := f.hit("PutObject"); err != nil {
+		return nil, err
+	}
+	return f.Storage.PutObject(ctx, b, k, ct, r, ci, opts)
+}
+
+func (f *c37Faulty) UploadPart(ctx context.Context, b storage.BucketName, k storage.ObjectKey, id storage.UploadId, n int32, r io.Reader, ci *storage.ChecksumInput) (*storage.UploadPartResult, error) {
+	if err := f.hit("UploadPart"); err != nil {
+		return nil, err
+	}
+	return f.Storage.UploadPart(ctx, b, k, id, n, r, ci)
+}
+
+func (f *c37Faulty) CompleteMultipartUpload(ctx context.Context, b storage.BucketName, k storage.ObjectKey, id storage.UploadId, ci *storage.ChecksumInput, opts *storage.CompleteMultipartUploadOptions) (*storage.CompleteMultipartUploadResult, error) {
+	if err := f.hit("CompleteMultipartUpload"); err != nil {
+		return nil, err
+	}
+	return f.Storage.CompleteMultipartUpload(ctx, b, k, id, ci, opts)
+}
+
 func c37Run(rc *RunCtx) (*Violation, error) {
 	hQuiet()
 	g := rc.Gen()
@@ -788,8 +868,34 @@ func c37Run(rc *RunCtx) (*Violation, error) {
 		rc.Logf("-- MigrateStorage: %d source buckets, %d current objects, destination buckets %v, conflict=%v", len(srcNames), nSrcObjs, dDst.M.BucketNames(), conflict)
 
 		// ---- the real entry point (cmd/pithos.go migrateStorage)
-		merr := migrator.MigrateStorage(ctx, src.Storage, dst.Storage)
+		// in a third of the runs one call of the migrator on the source or the destination fails (drawn
+		// after everything else, so older tapes keep their meaning); whatever fails, a migration that
+		// reports success must have copied everything exactly
+		fsrc := &c37Faulty{Storage: src.Storage, err: seams.ErrInjected}
+		fdst := &c37Faulty{Storage: dst.Storage, err: seams.ErrInjected}
+		if g.Chance(1, 3) {
+			srcOps := []string{"GetObjectTagging", "GetObject", "ListObjects", "ListBuckets", "GetObjectTagging"}
+			dstOps := []string{"PutObject", "CreateBucket", "ListObjects", "UploadPart", "CompleteMultipartUpload", "ListBuckets"}
+			if g.Chance(2, 3) {
+				fsrc.op, fsrc.at = srcOps[g.Int(len(srcOps))], g.Int(4)
+				rc.Logf("-- fault: source %s #%d fails", fsrc.op, fsrc.at)
+			} else {
+				fdst.op, fdst.at = dstOps[g.Int(len(dstOps))], g.Int(4)
+				rc.Logf("-- fault: destination %s #%d fails", fdst.op, fdst.at)
+			}
+		}
+		merr := migrator.MigrateStorage(ctx, fsrc, fdst)
 		rc.Logf("   result: %v", merr)
+		faultFired := fsrc.fired || fdst.fired
+		if faultFired {
+			rc.Stats.Inc("fault.c37." + fsrc.op + fdst.op)
+			if merr != nil {
+				rc.Stats.Inc("probe.c37.failed_call_reported")
+				outcome = "failed-call-reported"
+				return nil, nil
+			}
+			rc.Stats.Inc("probe.c37.success_reported_despite_failed_call")
+		}
 
 		if conflict && merr == nil {
 			return rc.Fail("nonempty", "migration-into-nonempty-bucket-succeeded", "a source bucket exists non-empty in the destination but MigrateStorage returned nil"), nil
@@ -1065,9 +1171,28 @@ func (l *c38Lens) withTags(ctx context.Context, b storage.BucketName, k storage.
 	}
 }
 
+// sameErrKind compares the error kind of a failed read through the client with the kind the
+// direct storage reports for the same call (missing key vs current delete marker vs missing
+// bucket vs method-not-allowed are different observable results).
+func (l *c38Lens) sameErrKind(op string, b storage.BucketName, k storage.ObjectKey, clientErr, directErr error) {
+	if clientErr == nil || directErr == nil {
+		return
+	}
+	ck, dk := classify(clientErr), classify(directErr)
+	if ck == dk || ck == model.OtherError {
+		return // untranslated errors are reported by xerr
+	}
+	if ck == model.NoSuchBucket && dk != model.NoSuchBucket {
+		return // reported by objErr (object-404-reported-as-nosuchbucket)
+	}
+	l.soft(OErrKind, "error-kind-differs:"+op+":"+dk.String()+"-vs-"+ck.String(), "%s(%s/%s): direct storage returns %v, S3ClientStorage returns %v", op, b, k, directErr, clientErr)
+}
+
 func (l *c38Lens) HeadObject(ctx context.Context, b storage.BucketName, k storage.ObjectKey, opts *storage.HeadObjectOptions) (*storage.Object, error) {
 	o, err := l.Storage.HeadObject(ctx, b, k, opts)
 	if err != nil {
+		_, derr := l.direct.HeadObject(ctx, b, k, opts)
+		l.sameErrKind("HeadObject", b, k, err, derr)
 		return nil, l.objErr(ctx, "HeadObject", b, err)
 	}
 	var ver *string
@@ -1101,6 +1226,11 @@ func (l *c38Lens) GetObject(ctx context.Context, b storage.BucketName, k storage
 		}
 	}
 	if err != nil {
+		_, drds, derr := l.direct.GetObject(ctx, b, k, ranges, opts)
+		for _, r := range drds {
+			r.Close()
+		}
+		l.sameErrKind("GetObject", b, k, err, derr)
 		return nil, nil, l.objErr(ctx, "GetObject", b, err)
 	}
 	l.withTags(ctx, b, k, ver, o)
